@@ -23,6 +23,7 @@ PROP = {
         {"name": "C17", "pkg": "./pkg/redis/checkpoint/", "test": "TestVerifC17"},
         {"name": "C17m", "pkg": "./syncer/", "test": "TestVerifC17Migrate"},
         {"name": "C17gs", "pkg": "./syncer/", "test": "TestVerifC17GcSender"},
+        {"name": "C17gf", "pkg": "./cmd/", "test": "TestVerifC17GcFrame"},
     ],
     "driver": "drv_C17",
     "rule": "c17u (UpdateCheckpoint): corpus (D13 witnesses); generated bookkeeping states on the target double: nothing stored / rename / "
@@ -44,6 +45,11 @@ PROP = {
             "after every prefix of a format switch the real resolve re-run + real RedisOutput.StartPoint (bisyncStartPoint) must not resume before the old "
             "namespace's start; gc never deletes in the DB holding the unique largest offset of a live id; entries WITHOUT _mtime (what the replay path "
             "writes) and mtime 0 are generated in 1/3 of the DBs incl. the newest. "
+            "c17gf (the REAL SyncerCmd.gcStaleCheckpoint, frame included, package cmd): loopback source doubles answering INFO replication with "
+            "master_replid AND master_replid2, the target double behind a loopback listener; position labelled with the current id or (failover pending) "
+            "with the previous one, younger / older than staleCheckpointDuration or without _mtime, 1-3 DBs, a dead id sharing the key, one source node "
+            "unreachable (gc must issue nothing); requests + position after every prefix vs the Lean model of gcStaleCp with live = every reported id; "
+            "monitor: the next start after every prefix reads a position not smaller, same DB. "
             "c17gs (gc while the sender runs): the real sendAof under virtual time replays a stream visiting several source DBs, the real gc runs between two "
             "batches, the stream returns to a DB visited before; after EVERY request prefix a fresh RedisOutput.StartPoint must still read the session's run id "
             "and a not smaller offset. "
